@@ -676,6 +676,20 @@ static std::vector<Prog> programs()
                    viol("C11:reinit:application-servers-overridden", fmt("after ares_set_servers_ports_csv(\"10.0.0.2:53\") || ares_reinit the channel's servers are \"%s\"", csv ? csv : "(null)"));
                  ares_free_string(csv);
                } });
+  v.push_back({ "P10-two-sockets-replaced-at-once-one-query-per-socket", "c11", 0, 0, 1, 1, [](ares_channel_t *ch) {
+                 // two queries, each on its own socket, towards a silent server; a client thread then switches the channel
+                 // to a server that answers: both connections are closed and replaced under one hold of the channel
+                 // lock, the new sockets get the descriptor numbers just freed, and the event thread - which has not yet
+                 // seen the removals - must end up watching the NEW sockets (their answers arrive at once)
+                 q_query(ch, "a.example.com");
+                 q_query(ch, "b.example.com");
+                 Client *a = spawn([ch] { ares_set_servers_ports_csv(ch, "10.0.0.2:53"); });
+                 join(a);
+                 wait_all(ch, "P10");
+                 for (int t = 0; t < g_ntoks; t++)
+                   if (g_toks[t].count == 1 && g_toks[t].status != ARES_SUCCESS)
+                     viol("C11:event-thread:answer-on-replaced-socket-not-seen", fmt("token %d ended with status %d although the new server answers every query at once", t, (int)g_toks[t].status));
+               } });
   v.push_back({ "P7-destroy-while-busy", "c11", 0, 1, 0, 1, [](ares_channel_t *ch) {
                  q_query(ch, "a.example.com");
                  q_query(ch, "b.example.com");
@@ -778,6 +792,11 @@ static void run_program(const Prog &p, int evsys, const unsigned char *prefix, i
   o.lookups = (char *)"b";
   o.ndots   = 1;
   int             mask = ARES_OPT_FLAGS | ARES_OPT_TIMEOUTMS | ARES_OPT_TRIES | ARES_OPT_EVENT_THREAD | ARES_OPT_LOOKUPS | ARES_OPT_NDOTS;
+  if (strstr(p.name, "one-query-per-socket")) {
+    // every query gets its own UDP socket (several descriptors are open, closed and re-opened together)
+    o.udp_max_queries = 1;
+    mask |= ARES_OPT_UDP_MAX_QUERIES;
+  }
   ares_channel_t *ch   = nullptr;
   int             rc   = ares_init_options(&ch, &o, mask);
   if (rc != ARES_SUCCESS) {
